@@ -114,8 +114,6 @@ ASSUMPTIONS = [
 SHARDS = {'quick': 12, 'thorough': 16}
 BUDGET_S = {'quick': 300, 'thorough': 3000}   # per-shard wall; idle-machine need: ~15 s / ~270 s
 
-KF_BIGQ = 'qtt-index-float-division'
-
 VALUES = [1., -1., 2.5, -3.75, 42., 0., 0, 1, -2, 7, 1e-30, -1e-30, 1e-17,
     -1e-17, 1e-16, 1.5e-16, 1e-15, -1e-10, 1e20, -1e20, 1e-5, -7e3,
     0.3333333333333333, 1e150]
@@ -552,7 +550,7 @@ def run_delta_big(case, ctx, tv, rng, matrix):
         Y = getattr(tv, name)(*args)
     except ValueError as ex:
         ctx.viol(mon, f'{desc} raised ValueError({ex}) for a position inside '
-            '[-2^q, 2^q)', kf=KF_BIGQ)
+            '[-2^q, 2^q)')
         return
     why = wf4(Y, q) if matrix else ref.wellformed(Y, [2] * q)
     if not ctx.check('wellformed', why is None, f'{desc}: {why}'):
@@ -570,7 +568,7 @@ def run_delta_big(case, ctx, tv, rng, matrix):
     else:
         got, exp = sum(w[0] << k for k, w in enumerate(where)), i % N
     ok = ctx.check(mon, got == exp, f'{desc}: the non-zero element is at '
-        f'position {got}, expected {exp}', kf=KF_BIGQ)
+        f'position {got}, expected {exp}')
     ctx.close(mon, prod, LD(v), 4 * q * EPS * abs(float(v)),
         f'{desc}: value of the non-zero element')
     if ok:
